@@ -120,6 +120,15 @@ def run_elements(shard):
                 if d_:
                     named.update(k[1] for k in d_)
             a._compiled_charge_radical
+            # every tabulated state must fit the fixed-width fields of the codecs: hydrogens 0..6 in the pack, 0..4 in the matcher word, charge -4..4
+            for (c_, r_, v_), val in a._compiled_valence_rules.items():
+                if not -4 <= c_ <= 4:
+                    bad('valence table holds charge %d outside the codec range -4..4' % c_)
+                for s_, d_, h_ in val:
+                    if h_ > 4:
+                        bad('valence table holds a state with %d implicit hydrogens: outside the matcher hydrogen field (0..4)' % h_, charge=c_, bond_sum=v_)
+                    if h_ > 6 or h_ < 0:
+                        bad('valence table holds a state with %d implicit hydrogens: outside the pack hydrogen field (0..6)' % h_, charge=c_, bond_sum=v_)
             for k in named:
                 if not (isinstance(k, int) and 1 <= k <= 118):
                     bad('valence rule names element %r' % (k,))
